@@ -23,24 +23,29 @@ from engine_common import M, seq
 from engine_impl import run_scenario
 
 MANIFEST = {
-    "text": "PARTIAL. Lean: the pure replay lemma (Lemma B) for ALL message lists, all states and any number of "
-    "interruptions: re-executing the messages cached since the last checkpoint from the positions at the interruption "
-    "with the sequence counters rolled back emits exactly the events of the first pass and ends in the same state "
-    "provided ReplaySafe (every device a bundle depends on is set earlier in the cache or did not move), hence the "
-    "last event per seq_num and the final counters equal those of the uninterrupted execution; step plans (every "
-    "point = checkpoint, sets, then bundles) satisfy ReplaySafe at every interruption point (induction over the point "
-    "list).  The small model is tied to the shared engine model by lemmas (cmdSet = set, create/read*/save = one "
-    "bundle event with seq = counter and data = readingOf, Bundler.rewind restores the snapshot taken by "
-    "resetCheckpoint, rewindPlan/startResume/_start_suspender replay exactly the cache) and "
-    "C03_data_preserved_partial states the result for the engine's own command handlers.  NOT proved: that the "
-    "scheduler/`_run` machine executes 'cache again, then continue' at every suspension point (Lemma A = C04); "
-    "this and everything else is checked by sweeping every arrival index of generated plans and of the real "
-    "built-in plans on the real RunEngine.",
+    "text": "PARTIAL. Lean (16 theorems): (1) the pure replay lemma over a projection of the engine state (device positions + "
+    "bundler sequence counters; messages set | bundle | other), for ALL message lists, states and interruption schedules: "
+    "re-executing the messages cached since the last checkpoint from the positions at the interruption with the counters rolled "
+    "back emits exactly the events of the first pass and ends in the same state provided ReplaySafe (every device a bundle "
+    "depends on is set earlier in the cache or did not move); hence after one interruption anywhere (C03_interrupted_prefix) or "
+    "any number of them (C03_repeat) the last event per (stream, seq_num) and the final counters equal those of the "
+    "uninterrupted execution and no foreign event is emitted; step-plan points (moves before bundles) satisfy ReplaySafe at "
+    "every interruption point and whole step plans record the same data (induction over the point list). (2) the shared engine "
+    "model projects onto it: cmdSet = set, readingOf = reading, create/read*/save = one event with seq = counter, "
+    "Bundler.rewind restores the snapshot resetCheckpoint took, _rewind / resume() / _start_suspender replay exactly the "
+    "cache, the handlers run over any well-formed segment SIMULATE the small model, and C03_data_preserved_partial: for the "
+    "engine model's own handlers, first pass + _rewind + replay + rest of the plan leaves the same final reading per seq_num, "
+    "counters and positions as the uninterrupted run. NOT proved (def C03_full): that `_run` under the scheduler executes "
+    "'cache again, then the continuation' at every suspension point (Lemma A = C04). That, and the whole property, is checked "
+    "on every run by sweeping EVERY arrival index (pause, deferred pause, suspend+release; double/triple interruptions) of "
+    "generated checkpointed plans (model and real RunEngine, 0 disagreements) and of the real built-in plans count, scan, "
+    "grid_scan, list_scan, rel_scan (oracle only).",
     "note": "Trusted: Lean kernel; engine_extract.py; the hand-written engine model tied by differential runs under a "
-    "deterministic event loop; fake synchronous deterministic devices (readings = function of the last set values; "
-    "statuses complete immediately); the F4 window (pause request landing in the exit sleep: RunEngineInterrupted "
-    "although the plan completed) belongs to C08 and is only counted here.",
-    "technique": "Lean 4 proof of the replay lemma over a projection of the engine state + projection lemmas onto the "
+    "deterministic event loop; the small replay model is additionally run on the message trace of implementation runs and must "
+    "reproduce their events; fake synchronous deterministic devices (readings = function of the last set values). The F4 "
+    "window (pause request landing in the exit sleep: RunEngineInterrupted although the plan completed) belongs to C08 and is "
+    "only counted here; the interruptions stream belongs to C05/C40.",
+    "technique": "Lean 4 proof of the replay lemma over a projection of the engine state + simulation lemmas onto the shared "
     "engine model + exhaustive interruption sweeps (baseline vs interrupted) on the real RunEngine",
 }
 LEAN_MODULES = ["BlueskyVerif.Props.C03"]
@@ -478,8 +483,23 @@ def replay_safe(sc, o):
 OUTSIDE = []   # differences with ReplaySafe false: listed in the evidence, not reported
 
 
+def _hung(o):
+    return any(r[1] == "hang" for r in o.get("returns", []))
+
+
+def settle(sc, o, runner=run_scenario):
+    """a blocking call that did not return within the harness time-out may be an overloaded machine, not a stuck
+    engine: run the (deterministic) scenario again, alone, before believing it"""
+    for _ in range(2):
+        if not _hung(o):
+            break
+        o = runner(sc)
+    return o
+
+
 def oracle(sc, o):
-    base = baseline_of(sc)
+    o = settle(sc, o)
+    base = settle(sc, baseline_of(sc))
     bad = []
     rbad, f4 = returns_ok(o)
     diffs = compare(base, o)
@@ -633,6 +653,17 @@ def run(ctx, model=True):
         return variant(r, base, [(r.choice(KINDS), r.randrange(0, n))])
 
     res = E.run_property(ctx, "C03", oracle, gen=one_more, quick=1, thorough=1, model=model, extra_scenarios=cases)
+    if res.disagreements and model:
+        # keep only disagreements that are reproducible (a timed-out implementation run is not one)
+        kept = []
+        for d in res.disagreements:
+            impl, models = E.run_both([d["case"]])
+            if _hung(impl[0]):
+                impl = [settle(d["case"], impl[0])]
+            dd = E.diff(models[0], E.canon_impl(impl[0]))
+            if dd:
+                kept.append({"case": d["case"], "first_difference": dd})
+        res.disagreements = kept
     res.rule = ("(a) generated well-formed checkpointed plans (runs, run keys, nested runs, two streams, sleeps, triggers; "
                 "deterministic devices) x one interruption of each kind (pause, deferred pause, suspend+release with pre/post plans) at "
                 "EVERY arrival index of the baseline run + random double/triple interruptions; each compared with the baseline run of the "
@@ -666,7 +697,8 @@ def run(ctx, model=True):
         res.violations.append(C.Violation(v["sig"], v["what"], v["case"]))
     for k, n in b["counts"].items():
         res.count(k, n)
-    res.evaluations += b["runs"]
+    for case, took in b["seen"]:
+        res.seen(case, took)
     res.facts["builtin_plans"] = b["summary"]
     res.samples.append({"builtin_sample": b["sample"]})
     return res
